@@ -101,15 +101,15 @@ def _vq(o):
 def _prelude(V):
     from barril.units import Array, Scalar, UnitsError
 
-    Array([1.0, 2.0], "m") * 2.0
-    Array((1.0,), "km") + 1.5
-    Scalar(3.0, "m") * Scalar.CreateEmptyScalar(2.0)
-    Scalar(3.0, "h") + Scalar.CreateEmptyScalar(2.0)
-    Array([1.0], "kg") / Array.CreateEmptyArray([2.0])
     try:
         Scalar(1.0, "m") + Scalar(1.0, "s")
     except UnitsError:
         pass
+    Scalar(3.0, "h") + Scalar.CreateEmptyScalar(2.0)
+    Array([1.0], "kg") / Array.CreateEmptyArray([2.0])
+    Array((1.0,), "km") + 1.5
+    Scalar(3.0, "ft") * Scalar.CreateEmptyScalar(2.0)
+    Array([1.0, 2.0], "m") * 2.0  # the LAST operation before the sum has a unit-less right operand
 
 
 def run(cfg, V):
